@@ -71,8 +71,23 @@ func (p *c10Proc) OnEnd(s ReadOnlySpan) {
 	p.snap.Store(&s)
 	p.copy.Store(&c)
 }
-func (p *c10Proc) Shutdown(context.Context) error   { return nil }
+func (p *c10Proc) Shutdown(context.Context) error {
+	if p.yield {
+		sched.Yield("processor Shutdown", p)
+	}
+	return nil
+}
 func (p *c10Proc) ForceFlush(context.Context) error { return nil }
+
+// c10ReuseSampler hands out, for every span, attributes from one slice it keeps (spare capacity
+// included), the way a sampler that avoids allocations does.
+type c10ReuseSampler struct{ buf []attribute.KeyValue }
+
+func (s *c10ReuseSampler) ShouldSample(p SamplingParameters) SamplingResult {
+	s.buf = append(s.buf[:0], attribute.String("sampler", p.Name))
+	return SamplingResult{Decision: RecordAndSample, Attributes: s.buf, Tracestate: trace.SpanContextFromContext(p.ParentContext).TraceState()}
+}
+func (*c10ReuseSampler) Description() string { return "c10ReuseSampler" }
 
 // c10DropNamed drops spans named "dropped", samples everything else.
 type c10DropNamed struct{}
@@ -118,6 +133,13 @@ func c10Body(sc c10Scn, tracing bool, res *string) func(x *sched.Exec) {
 		}
 		if sc.extra == "dropSampler" {
 			opts[1] = WithSampler(c10DropNamed{})
+		}
+		reuse := &c10ReuseSampler{buf: make([]attribute.KeyValue, 0, 8)}
+		if sc.extra == "reuseSampler" {
+			opts[1] = WithSampler(reuse)
+		}
+		if sc.extra == "regRace" {
+			p1.yield = true
 		}
 		tp := NewTracerProvider(opts...)
 		tr := tp.Tracer("t")
@@ -225,12 +247,32 @@ func c10Body(sc c10Scn, tracing bool, res *string) func(x *sched.Exec) {
 						c.End()
 					case "Register":
 						tp.RegisterSpanProcessor(p2)
+					case "Register3":
+						tp.RegisterSpanProcessor(p3)
+					case "Span2": // an unrelated span of the same tracer: started, given attributes, ended
+						_, c := tr.Start(context.Background(), "child")
+						c.SetAttributes(attribute.Int("q", 9), attribute.Int("r", 8), attribute.Int("t", 7))
+						c.End()
 					}
 				}
 			})
 		}
 		wg.Wait()
 		// ---- oracle (root thread, after the join)
+		if sc.extra == "regRace" {
+			// every Register / Unregister has returned: the span, ended now, reaches exactly p2 and p3
+			sp.End()
+			for i, p := range []*c10Proc{p2, p3} {
+				if n := p.ends.Load(); n != 1 {
+					x.Fail("C10|span-delivered-not-exactly-once|processor registered concurrently with another Register/Unregister", "RegisterSpanProcessor(p%d) had returned before the span ended; it received the span %d times", i+2, n)
+				}
+			}
+			if n := p1.ends.Load(); n != 0 {
+				x.Fail("C10|span-delivered-not-exactly-once|unregistered processor", "UnregisterSpanProcessor(p1) had returned before the span ended; p1 received it %d times", n)
+			}
+			*res = fmt.Sprintf("p1=%d p2=%d p3=%d", p1.ends.Load(), p2.ends.Load(), p3.ends.Load())
+			return
+		}
 		if sc.extra == "3procs" {
 			for i, p := range []*c10Proc{p2, p3} {
 				if n := p.ends.Load(); n != 1 {
@@ -330,6 +372,8 @@ func c10Jobs(thorough, race bool) []c10Job {
 		{"L-3procs-end-unregister", [][]string{{"End"}, {"Unreg1"}}, false, "3procs"},
 		{"M-panicking-end-vs-end", [][]string{{"PanicEnd"}, {"EndTS"}}, false, ""},
 		{"N-dropped-children", [][]string{{"End"}, {"ChildDropped"}, {"Child"}}, false, "dropSampler"},
+		{"O-registers-racing-unregister", [][]string{{"Unreg1"}, {"Register"}, {"Register3"}}, false, "regRace"},
+		{"P-sampler-reusing-its-attribute-slice", [][]string{{"Attr", "End"}, {"Span2"}}, false, "reuseSampler"},
 	}
 	p := 3
 	if thorough {
